@@ -601,6 +601,21 @@ fn suite_convert(out: &mut Out, thorough: bool) {
     let none: Option<usize> = None;
     writeln!(out.w, "cont\tnone\tchurch\t\t{}", ser(&IntoChurchNum::into_church(none))).unwrap();
     writeln!(out.w, "cont\tnone\tscott\t\t{}", ser(&IntoScottNum::into_scott(none))).unwrap();
+    writeln!(out.w, "cont\tnone\tparigot\t\t{}", ser(&IntoParigotNum::into_parigot(none))).unwrap();
+    writeln!(out.w, "cont\tnone\tstumpfu\t\t{}", ser(&IntoStumpFuNum::into_stumpfu(none))).unwrap();
+    writeln!(out.w, "cont\tnone\tbinary\t\t{}", ser(&IntoBinaryNum::into_binary(none))).unwrap();
+    // the full matrix of container impls (they are macro instances, one per numeral trait)
+    for a in [0usize, 2, 5] {
+        let (ok, er): (Result<usize, usize>, Result<usize, usize>) = (Ok(a), Err(a));
+        writeln!(out.w, "cont\tsome\tparigot\t{}\t{}", a, ser(&IntoParigotNum::into_parigot(Some(a)))).unwrap();
+        writeln!(out.w, "cont\tsome\tstumpfu\t{}\t{}", a, ser(&IntoStumpFuNum::into_stumpfu(Some(a)))).unwrap();
+        writeln!(out.w, "cont\tok\tscott\t{}\t{}", a, ser(&IntoScottNum::into_scott(ok))).unwrap();
+        writeln!(out.w, "cont\tok\tstumpfu\t{}\t{}", a, ser(&IntoStumpFuNum::into_stumpfu(ok))).unwrap();
+        writeln!(out.w, "cont\tok\tbinary\t{}\t{}", a, ser(&IntoBinaryNum::into_binary(ok))).unwrap();
+        writeln!(out.w, "cont\terr\tscott\t{}\t{}", a, ser(&IntoScottNum::into_scott(er))).unwrap();
+        writeln!(out.w, "cont\terr\tparigot\t{}\t{}", a, ser(&IntoParigotNum::into_parigot(er))).unwrap();
+        writeln!(out.w, "cont\terr\tbinary\t{}\t{}", a, ser(&IntoBinaryNum::into_binary(er))).unwrap();
+    }
     // vectors
     for xs in lists_upto(if thorough { 4 } else { 3 }, 3) {
         let s = xs.iter().map(|k| k.to_string()).collect::<Vec<_>>().join(" ");
